@@ -14,9 +14,37 @@ import (
 	"sync"
 )
 
+type pipelineTrackerKey struct{}
+
+/* The stages of a pipeline run in their own goroutines and only stop at their
+ * next channel operation after the context is cancelled. A caller that owns a
+ * resource the stages use, e.g. a database transaction, must not release it
+ * until every stage has returned. WithPipelineTracking returns a context that
+ * tracks the goroutines started with it and a wait function that blocks until
+ * all of them are done. Cancel the context before waiting. */
+func WithPipelineTracking(ctx context.Context) (context.Context, func()) {
+	wg := &sync.WaitGroup{}
+	return context.WithValue(ctx, pipelineTrackerKey{}, wg), wg.Wait
+}
+
+// Starts fn in a new goroutine, registered with the pipeline tracker of the
+// context if there is one.
+func GoWithContext(ctx context.Context, fn func()) {
+	wg, ok := ctx.Value(pipelineTrackerKey{}).(*sync.WaitGroup)
+	if !ok {
+		go fn()
+		return
+	}
+	wg.Add(1)
+	go func() {
+		defer wg.Done()
+		fn()
+	}()
+}
+
 func ProduceWithContext[T any](ctx context.Context, in []T) <-chan T {
 	out := make(chan T)
-	go func() {
+	GoWithContext(ctx, func() {
 		defer close(out)
 		for _, t := range in {
 			select {
@@ -25,13 +53,13 @@ func ProduceWithContext[T any](ctx context.Context, in []T) <-chan T {
 				return
 			}
 		}
-	}()
+	})
 	return out
 }
 
 func ProduceWithContextMapKeys[K comparable, V any](ctx context.Context, in map[K]V) <-chan K {
 	out := make(chan K)
-	go func() {
+	GoWithContext(ctx, func() {
 		defer close(out)
 		for k := range in {
 			select {
@@ -40,14 +68,14 @@ func ProduceWithContextMapKeys[K comparable, V any](ctx context.Context, in map[
 				return
 			}
 		}
-	}()
+	})
 	return out
 }
 
 func TransformWithContext[A, B any](ctx context.Context, in <-chan A, transformFn func(A) (out B, skip bool, err error)) (<-chan B, <-chan error) {
 	out := make(chan B)
 	errC := make(chan error, 1)
-	go func() {
+	GoWithContext(ctx, func() {
 		defer close(out)
 		defer close(errC)
 		for {
@@ -80,14 +108,14 @@ func TransformWithContext[A, B any](ctx context.Context, in <-chan A, transformF
 				}
 			}
 		}
-	}()
+	})
 	return out, errC
 }
 
 func TransformWithContextMultiple[A, B any](ctx context.Context, in <-chan A, transformFn func(A) (out []B, err error)) (<-chan B, <-chan error) {
 	out := make(chan B)
 	errC := make(chan error, 1)
-	go func() {
+	GoWithContext(ctx, func() {
 		defer close(out)
 		defer close(errC)
 		for {
@@ -119,7 +147,7 @@ func TransformWithContextMultiple[A, B any](ctx context.Context, in <-chan A, tr
 				}
 			}
 		}
-	}()
+	})
 	return out, errC
 }
 
@@ -128,7 +156,7 @@ func MergeWithContext[T any](ctx context.Context, cs ...<-chan T) <-chan T {
 	var wg sync.WaitGroup
 	wg.Add(len(cs))
 	for _, c := range cs {
-		go func(c <-chan T) {
+		GoWithContext(ctx, func() {
 			defer wg.Done()
 			for {
 				select {
@@ -145,12 +173,12 @@ func MergeWithContext[T any](ctx context.Context, cs ...<-chan T) <-chan T {
 					}
 				}
 			}
-		}(c)
+		})
 	}
-	go func() {
+	GoWithContext(ctx, func() {
 		wg.Wait()
 		close(out)
-	}()
+	})
 	return out
 }
 
@@ -160,7 +188,7 @@ func MergeErrorsWithContext(ctx context.Context, cs ...<-chan error) <-chan erro
 	ctx, cancel := context.WithCancelCause(ctx)
 	wg.Add(len(cs))
 	for _, c := range cs {
-		go func(c <-chan error) {
+		GoWithContext(ctx, func() {
 			select {
 			case <-ctx.Done():
 				cancel(ctx.Err())
@@ -170,19 +198,19 @@ func MergeErrorsWithContext(ctx context.Context, cs ...<-chan error) <-chan erro
 				}
 			}
 			wg.Done()
-		}(c)
+		})
 	}
-	go func() {
+	GoWithContext(ctx, func() {
 		wg.Wait()
 		errC <- context.Cause(ctx)
 		close(errC)
-	}()
+	})
 	return errC
 }
 
 func SinkWithContext[T any](ctx context.Context, in <-chan T, sinkFn func(T) error) <-chan error {
 	errC := make(chan error, 1)
-	go func() {
+	GoWithContext(ctx, func() {
 		defer close(errC)
 		for {
 			select {
@@ -200,6 +228,6 @@ func SinkWithContext[T any](ctx context.Context, in <-chan T, sinkFn func(T) err
 				}
 			}
 		}
-	}()
+	})
 	return errC
 }
